@@ -494,6 +494,22 @@ func driveDirty(c *DriverCtx) error {
 			if err != nil {
 				return err
 			}
+			// a receiver built by the caller in which one nested object is referenced more than once
+			ops = append(ops, Op{Op: "new", O: "shared", V: dirty}, Op{Op: "sharepointers", O: "shared"}, Op{Op: "encode", B: "b5", O: "m"},
+				Op{Op: "decode", B: "b5", O: "shared", T: t, Tag: "into-built-with-shared-parts"})
+			if n := len(ev.Post); n > 1 && BodyField(t) != nil {
+				// for types that choose a body / extension by a key: the failed decode stops at EVERY one of the first offsets
+				lim := 14
+				if n-1 < lim {
+					lim = n - 1
+				}
+				for k := 1; k <= lim; k++ {
+					r := fmt.Sprintf("rk%d", k)
+					ops = append(ops, Op{Op: "encode", B: "bd" + r, O: "md"}, Op{Op: "decode", B: "bd" + r, O: r, T: t, Fresh: true, Tag: "make-dirty"},
+						Op{Op: "cut", B: "bc" + r, From: "bsrc", K: k}, Op{Op: "decode", B: "bc" + r, O: r, T: t, Tag: "truncated-into-dirty"},
+						Op{Op: "encode", B: "bf" + r, O: "m"}, Op{Op: "decode", B: "bf" + r, O: r, T: t, Tag: "into-dirty-after-failed-decode"})
+				}
+			}
 			if n := len(ev.Post); n > 1 {
 				// receiver holds the OTHER message, then a truncated copy of this one fails, then the complete one
 				ops = append(ops, Op{Op: "encode", B: "bd2", O: "md"},
@@ -578,6 +594,31 @@ func driveAlias(c *DriverCtx) error {
 				Op{Op: "scribble", B: "own", K: 3, Tag: "owner-overwrites"}, Op{Op: "observe", O: "r2"})
 			if err := c.Run(ops); err != nil {
 				return err
+			}
+		}
+		// text lists whose element lengths add up to exactly 65,536 (a total kept in 16 bits is 0 then)
+		for _, f := range S.Types[t].Fields {
+			if f.Kind != "list" || f.Elem.Kind != "str" || f.Elem.PW != 2 {
+				continue
+			}
+			for _, lens := range [][]int{{32768, 32768}, {65535, 0, 1}, {65535}} {
+				c.G.Small = true
+				v := c.G.Value(t, Canon)
+				c.G.Small = false
+				lst := make([]any, len(lens))
+				for j, l := range lens {
+					e := make([]int, l)
+					for q := range e {
+						e[q] = 0x61 + j
+					}
+					lst[j] = e
+				}
+				v[f.Name] = lst
+				ops := []Op{{Op: "new", O: "m", V: v}, {Op: "encode", B: "b", O: "m"}, {Op: "decode", B: "b", O: "r", T: t, Fresh: true, Tag: "total-65536"},
+					{Op: "scribble", B: "b", K: 64, Tag: "pool-reuse"}, {Op: "observe", O: "r"}}
+				if err := c.Run(ops); err != nil {
+					return err
+				}
 			}
 		}
 	}
